@@ -131,7 +131,7 @@ def run(prop, tier, seed, verdict):
         verdict.violation({"clause": "harness-build"}, {"log": blog[-3000:]}, False)
         return {"evaluations": 0, "distinct_nontrivial": 0}
     rng = random.Random(seed * 101 + 12)
-    n = 600 if tier == "quick" else 20000
+    n = 2000 if tier == "quick" else 20000
     workdir = os.path.join(WORK, prop)
     os.makedirs(workdir, exist_ok=True)
     trees = [gen_tree(rng) for _ in range(n)]
